@@ -96,6 +96,19 @@ def n0error(text: str, internal_call: int = 0):
 def n0warning(text: str, internal_call: int = 0):
     n0print(text, level = "WARNING", internal_call = internal_call + 1)
 # ******************************************************************************
+# JSON string escaping (RFC 8259, section 7): quotation mark, reverse solidus
+# and the control characters U+0000..U+001F must be escaped inside a string
+json_escapes = {
+    0x22: '\\"',
+    0x5C: '\\\\',
+    0x08: '\\b',
+    0x0C: '\\f',
+    0x0A: '\\n',
+    0x0D: '\\r',
+    0x09: '\\t',
+}
+json_escapes.update({code: f"\\u{code:04x}" for code in range(0x20) if code not in json_escapes})
+# ******************************************************************************
 def n0pretty(
             item: typing.Any,
             indent_: int = 0,
@@ -201,7 +214,10 @@ def n0pretty(
                                 value_type += "> "
 
                         if isinstance(sub_item_key_value, str):
-                            sub_item_key_value = sub_item_key_value.replace('\"', '\\\"')  # SyntaxError: f-string expression part cannot include a backslash
+                            if json_convention:
+                                sub_item_key_value = sub_item_key_value.translate(json_escapes)
+                            else:
+                                sub_item_key_value = sub_item_key_value.replace('\"', '\\\"')  # SyntaxError: f-string expression part cannot include a backslash
                             sub_item_result = f"{__quotes}{sub_item_key_value}{__quotes}"
                         else:
                             sub_item_result = str(sub_item_key_value)
@@ -210,7 +226,10 @@ def n0pretty(
                         sub_item_result = f"{value_type}{sub_item_result}".ljust(keys_and_max_len_of_value[key])
 
                         if isinstance(key, str):
-                            key = key.replace('\"', '\\\"')  # SyntaxError: f-string expression part cannot include a backslash
+                            if json_convention:
+                                key = key.translate(json_escapes)
+                            else:
+                                key = key.replace('\"', '\\\"')  # SyntaxError: f-string expression part cannot include a backslash
                             key = f"{__quotes}{key}{__quotes}"
                         else:
                             key = str(key)
@@ -258,6 +277,8 @@ def n0pretty(
                             key_type += f" {len(key)}"
                         key_type += "> "
                     if isinstance(key, str):
+                        if json_convention:
+                            key = key.translate(json_escapes)
                         key = f"{__quotes}{key}{__quotes}"
                     else:
                         key = str(key)
@@ -333,7 +354,9 @@ def n0pretty(
                             .replace("<class '", "<") \
                             .replace("'>", " ") \
                           + f"{len(item)}> "
-        if auto_quotes and '"' in item and "'" not in item:
+        if json_convention:
+            result = result_type + '"' + item.translate(json_escapes) + '"'
+        elif auto_quotes and '"' in item and "'" not in item:
                 result = result_type + f"'{item}'"
         else:
             result = result_type + __quotes + item.replace(__quotes, '\\"' if __quotes == '"' else "\\'") + __quotes
